@@ -1097,6 +1097,87 @@ func (w *c19W) failDiff(it *c19Item, diff, prefix string, f mc.Failure) {
 	w.fail(it, f)
 }
 
+// ------------------------------------------------------------------ (g) shared sub-values
+
+// A dictionary may hold the SAME list / dictionary object twice (a literal that
+// names one variable twice, or two 写入 of one value): it is not cyclic and is
+// JSON-representable, so 生成JSON must serialise it like the unshared copy.
+const c19ShareShapes = 4
+
+func c19ShareCount(g *c19Gen) int64 {
+	t := int64(0)
+	for n := 1; n <= 3; n++ {
+		t += g.val(n, 2)
+	}
+	return t * c19ShareShapes
+}
+
+func c19ShareCase(g *c19Gen, k int64) (x *c19N, shape int) {
+	shape = int(k % c19ShareShapes)
+	k /= c19ShareShapes
+	for n := 1; n <= 3; n++ {
+		if k < g.val(n, 2) {
+			return g.unrankVal(n, 2, k), shape
+		}
+		k -= g.val(n, 2)
+	}
+	return &c19N{K: 'l'}, shape
+}
+
+// c19ShareBuild: the dictionary of the given shape around x, as an unshared tree
+// and as a real value in which both occurrences of x are one object.
+func c19ShareBuild(x *c19N, shape int) (*c19N, r.Element, string) {
+	xe := zn.ToElem(x.toV())
+	kv := func(k string, v r.Element) value.KVPair { return value.KVPair{Key: k, Value: v} }
+	dict := func(keys []string, vals []*c19N) *c19N { return &c19N{K: 'd', Keys: keys, Items: vals} }
+	switch shape {
+	case 0:
+		return dict([]string{"a", "b"}, []*c19N{x, x}), value.NewHashMap([]value.KVPair{kv("a", xe), kv("b", xe)}), "【“a” = X，“b” = X】"
+	case 1:
+		return dict([]string{"a"}, []*c19N{{K: 'l', Items: []*c19N{x, x}}}), value.NewHashMap([]value.KVPair{kv("a", value.NewArray([]r.Element{xe, xe}))}), "【“a” = 【X，X】】"
+	case 2:
+		return dict([]string{"a", "b"}, []*c19N{x, dict([]string{"a"}, []*c19N{x})}),
+			value.NewHashMap([]value.KVPair{kv("a", xe), kv("b", value.NewHashMap([]value.KVPair{kv("a", xe)}))}), "【“a” = X，“b” = 【“a” = X】】"
+	}
+	return dict([]string{"a", "b"}, []*c19N{{K: 'l', Items: []*c19N{x}}, x}),
+		value.NewHashMap([]value.KVPair{kv("a", value.NewArray([]r.Element{xe})), kv("b", xe)}), "【“a” = 【X】，“b” = X】"
+}
+
+func (w *c19W) checkShared(g *c19Gen, k int64) {
+	c := w.c
+	x, shape := c19ShareCase(g, k)
+	d, shared, lit := c19ShareBuild(x, shape)
+	cs := mc.J(c19Case{Check: "g", Level: g.name, Rank: k, Dict: d.desc(), Shown: zn.Display(d.toV()), Variant: lit})
+	container := x.K == 'l' || x.K == 'd'
+	c.Eval(container)
+	c.Stat("g_shared_subvalue_dictionaries", 1)
+	plain := c19Generate(d)
+	want, ok := plain.text()
+	if !ok {
+		return // the unshared dictionary itself is not serialised: sub-check (b) reports that
+	}
+	got := c19Call(libJson.FN_generateJson, shared)
+	if txt, ok := got.text(); !ok || txt != want {
+		kind := "mismatch"
+		if got.panic != "" {
+			kind = "panic"
+		}
+		c.Fail(mc.Failure{Kind: kind, Bucket: "g:shared", Case: cs, Expected: "生成JSON of " + lit + " where X is ONE value " + x.show() + " = " + c14Clip(want) + " (the same text as for two separate copies)", Observed: got.show()})
+		return
+	}
+	// through a program: a literal naming the input variable twice
+	o := zn.RunReal("导入《@JSON》\n输入X\n输出（生成JSON："+lit+"）", map[string]r.Element{"X": zn.ToElem(x.toV())})
+	c.Stat("g_end_to_end_runs", 1)
+	os, isText := o.Elem.(*value.String)
+	if o.Panic != "" || o.Err != nil || !isText || os == nil || os.GetValue() != want {
+		kind := "mismatch"
+		if o.Panic != "" {
+			kind = "panic"
+		}
+		c.Fail(mc.Failure{Kind: kind, Bucket: "g:shared-e2e", Case: cs, Expected: "输出（生成JSON：" + lit + "） gives " + c14Clip(want), Observed: c19ShowOutcome(o)})
+	}
+}
+
 // ------------------------------------------------------------------ sub-checks
 
 // (b) + (c): needs no oracle.
@@ -1466,6 +1547,7 @@ func init() {
 			"Level B: structure with three scalar leaves (text \", 1e21, 空) plus empty list and empty dictionary, the node counts above level A's up to 5 (quick) / 6 (thorough). " +
 			"Per dictionary: (a) Python's strict reading of 生成JSON(d), (b) 解析JSON(生成JSON(d)) == d under zn.CanonElem with key order, parsed 43 times (+3 per document of (d): >= 64 parses of the same member order per dictionary), (c) the same through in-language 为, (d) 7-8 documents written by Python json.dumps (compact/indent=2 x ensure_ascii on/off, default separators, numbers as floats, whitespace-padded, \\/ escapes) parsed back, " +
 			"(e) for dictionaries of <= 3 nodes (level A) and <= 4 / <= 5 nodes (level B): every single-character deletion, every replacement by one of \" \\ { } [ ] , : 0 x, every one-character suffix and the doubled document, judged by Python (valid -> same value, invalid -> exception catchable by 拦截异常; through a program with a handler for level A <= 2 nodes quick / <= 3 nodes thorough, by the error class otherwise). " +
+			"(g) every value of <= 3 nodes (level B) held twice AS ONE OBJECT by a dictionary of 4 shapes (two keys, twice in a list, once nested, list and key): 生成JSON gives the text of the unshared copy, directly and through a literal naming one input variable twice. " +
 			"Level F: every dictionary of <= 4 (quick) / <= 5 (thorough) nodes over leaves {NaN, +Inf, -Inf, 1, é} that contains a non-finite number: 生成JSON must raise catchably. Non-trivial: more than a one-member object of a plain ASCII text / small integer / 真 假 空.",
 		Assumptions: []string{
 			"numbers are compared as doubles under ==: -0 and 0 are equal (Python reads -0 as the integer 0), 2^53+1 is compared after rounding to the nearest double; how a number is spelled (1e+21, 1.0, \\u escapes, HTML-safe \\u003c) is free as long as the document is RFC 8259-valid",
@@ -1561,6 +1643,26 @@ func c19Run(c *mc.Ctx) {
 			c.Bound(fmt.Sprintf("level_%s_dictionaries_of_%d_nodes", strings.SplitN(g.name, ":", 2)[0], n), fmt.Sprintf("complete: %d dictionaries, %s", total, what))
 		}
 	}
+	// (g) shared sub-values
+	{
+		g := c19NewGen("B:three-leaves", c19LeavesSmall)
+		total := c19ShareCount(g)
+		gb := base
+		c.Describe = func(idx int64) json.RawMessage {
+			x, shape := c19ShareCase(g, idx-gb)
+			d, _, lit := c19ShareBuild(x, shape)
+			return mc.J(c19Case{Check: "g", Level: g.name, Rank: idx - gb, Dict: d.desc(), Shown: zn.Display(d.toV()), Variant: lit})
+		}
+		for k := int64(0); k < total; k++ {
+			if !c.Mine(base + k) {
+				continue
+			}
+			c.CaseIdx(base + k)
+			w.checkShared(g, k)
+		}
+		base += total
+		c.Bound("g_shared_subvalues", fmt.Sprintf("complete: every value of <= 3 nodes x %d shapes holding it twice as one object: %d dictionaries", c19ShareShapes, total))
+	}
 	// top-level non-objects: dont_care
 	for k, doc := range c19TopDocs {
 		idx := base + int64(k)
@@ -1630,6 +1732,8 @@ func c19Replay(c *mc.Ctx, raw json.RawMessage) {
 		w.checkCorrupt(it, c19Mut{doc, cs.Variant}, &rds[0], cs.E2E, c19ReplayRepeats)
 	case "top":
 		w.checkCorrupt(it, c19Mut{doc, cs.Variant}, &c19Read{OK: true, Top: "scalar"}, true, 1)
+	case "g":
+		w.checkShared(c19NewGen("B:three-leaves", c19LeavesSmall), cs.Rank)
 	case "f":
 		if d.nonFinite() {
 			w.checkNonFinite(it)
